@@ -97,6 +97,7 @@ impl EditState {
             let size = size.into();
             let rect = Rectangle::from_min_size(Position::default(), size);
             let old_size = self.get_buffer().get_size();
+            let old_sauce_size = super::undo_operations::get_sauce_size(self);
             let mut old_layers = Vec::new();
             mem::swap(&mut self.get_buffer_mut().layers, &mut old_layers);
 
@@ -126,12 +127,12 @@ impl EditState {
                 self.get_buffer_mut().layers[0].set_size(size);
             }
 
-            let op = super::undo_operations::Crop::new(old_size, rect.get_size(), old_layers);
+            let op = super::undo_operations::Crop::new(old_size, old_sauce_size, rect.get_size(), old_layers);
 
             return self.push_plain_undo(Box::new(op));
         }
 
-        let op = super::undo_operations::ResizeBuffer::new(self.get_buffer().get_size(), size);
+        let op = super::undo_operations::ResizeBuffer::new(self.get_buffer().get_size(), super::undo_operations::get_sauce_size(self), size);
         self.push_undo_action(Box::new(op))
     }
 
